@@ -49,19 +49,24 @@ pub fn sample_of(log: &RunLog, w: &crate::world::World) -> serde_json::Value {
 /// Run a generated case and return everything a monitor needs.
 pub fn run_generated(profile: Profile, rng: &mut Rng, seed: u64, max_steps: usize) -> (RunLog, crate::world::Shared) {
     let cfg = gen_cfg(rng, &profile);
+    let hostile = profile.hostile_broker;
     let mut g = Gen::new(rng.next(), profile);
     g.steps_left = max_steps;
-    run_case(&cfg, seed, &mut g, max_steps + 8)
+    let (mut log, world) = run_case(&cfg, seed, &mut g, max_steps + 8);
+    log.hostile = hostile;
+    (log, world)
 }
 
 /// Same, followed by the benign continuation (reconnect + poll until idle).
 pub fn run_generated_epilogue(profile: Profile, rng: &mut Rng, seed: u64, max_steps: usize, max_polls: usize) -> (RunLog, crate::world::Shared) {
     let cfg = gen_cfg(rng, &profile);
+    let hostile = profile.hostile_broker;
     let mut g = Gen::new(rng.next(), profile);
     g.steps_left = max_steps;
     let mut d = WithEpilogue::new(g, max_polls);
     let (mut log, world) = run_case(&cfg, seed, &mut d, max_steps + max_polls + 16);
     log.epilogue = true;
+    log.hostile = hostile;
     log.epilogue_from = d.from_step;
     (log, world)
 }
@@ -227,6 +232,38 @@ fn acks_heavy(r: &mut Rng) -> Profile {
     p
 }
 
+fn inbound_heavy(r: &mut Rng) -> Profile {
+    let mut p = Profile::default();
+    p.name = "inbound-heavy";
+    p.w_bpublish = 40;
+    p.w_bpubrel = 6;
+    p.w_bstale = 0;
+    p.w_pub = [2, 8, 8];
+    p.w_poll = 30;
+    p.w_drive = 8;
+    p.w_recv = 4;
+    p.w_release = 4;
+    p.ack_modes = vec![AckMode::Hold, AckMode::Hold, AckMode::Immediate, AckMode::Never];
+    p.tx_choices = vec![48, 64, 96, 128, 512];
+    p.rx_choices = vec![64, 128, 256, 1024];
+    p.mps_choices = vec![None, None, Some(100_000)];
+    p.sp_w = [4, 6, 2];
+    p.bad_connack_pct = 5;
+    p.conn_fault_pct = 25;
+    p.props_pct = 50;
+    p.payload_max = *r.pick(&[8usize, 64, 1000]);
+    p.max_conns = 6;
+    p
+}
+
+fn inbound_hostile(r: &mut Rng) -> Profile {
+    let mut p = inbound_heavy(r);
+    p.name = "inbound-hostile";
+    p.hostile_broker = true;
+    p.w_bstale = 6;
+    p
+}
+
 macro_rules! gen_check {
     ($id:expr, $level:expr, $rule:expr, $assume:expr, $wl:expr, $mon:expr, $steps:expr, $epi:expr, $min:expr, $req:expr) => {
         Box::new(GenCheck {
@@ -278,6 +315,11 @@ pub fn all() -> Vec<Box<dyn Check>> {
         COMMON_ASSUME.to_vec(),
         vec![("qos2-heavy", 4000, 400_000, qos2_heavy as ProfileFn), ("general", 2000, 200_000, general)],
         m::c03::check, 70, 40, (200, 2000), vec!["resumes_with_release_phase", "pubrel_replays_verified", "replays_with_2plus_pubrel"]),
+    gen_check!("C04", "exploration",
+        "the reference broker originates bursts of PUBLISH packets (all QoS, identifiers incl. 1/255/256/65535, random property sets, payloads up to the receive buffer, retain/DUP), retransmissions of unreleased QoS 2 identifiers, PUBRELs for known and unknown ids, interleaved with client traffic, small transmit arenas kept full by withheld acks, reconnects between PUBLISH and PUBREL; a 40-line reference receiver predicts deliveries and the exact acknowledgement sequence. Non-trivial iff a duplicate was suppressed, an ack was owed with a full arena, or >=3 QoS 2 ids were pending. The hostile workload (broker exceeding limits/reusing ids) is judged only for: no panic, acks carry ids that were received.",
+        COMMON_ASSUME.to_vec(),
+        vec![("inbound-heavy", 5000, 500_000, inbound_heavy as ProfileFn), ("inbound-hostile", 1000, 100_000, inbound_hostile), ("general", 1000, 100_000, general)],
+        m::c04::check, 80, 0, (200, 2000), vec!["duplicates_suppressed", "acks_owed_with_full_arena", "pubrel_unknown", "deliveries_with_properties"]),
     gen_check!("C05", "exploration",
         "sequences of up to 8 connections with arbitrary session-present answers, rejected/garbled/EOF/silent/cancelled handshakes in between and arbitrary in-flight state at each loss; the monitor judges CONNECT flags and client id, connect event, invalidation, absence of stale transmissions and complete in-order replay. Non-trivial iff a resumed connection began with in-flight state or at least two connections were established.",
         COMMON_ASSUME.to_vec(),
